@@ -335,7 +335,7 @@ func replay(raw json.RawMessage, path []string) (engine.StepResult, []string) {
 		if fp != "" {
 			res.Violate(fp, "%s", detail)
 		}
-	case "world", "hist":
+	case "world", "hist", kindDiscarded:
 		var c WorldCase
 		if err := json.Unmarshal(raw, &c); err != nil {
 			panic(err)
